@@ -8,6 +8,7 @@ import (
 	"regexp"
 	"sort"
 	"strings"
+	"syscall"
 	"testing"
 	"time"
 
@@ -83,7 +84,7 @@ func c15Build(cs *c15Case) (*c15Model, string) {
 			return nil, "duplicate path " + e.Path
 		}
 		switch e.Kind {
-		case "dir", "file", "symlink":
+		case "dir", "file", "symlink", "fifo":
 		default:
 			return nil, "bad kind " + e.Kind
 		}
@@ -389,6 +390,8 @@ func evalC15(cs *c15Case) (sig, msg string, info c15Info) {
 			err = os.WriteFile(full, []byte(c), 0o644)
 		case "symlink":
 			err = os.Symlink(e.Target, full)
+		case "fifo":
+			err = syscall.Mkfifo(full, 0o644)
 		}
 		if err != nil {
 			info.Skip = "setup:" + err.Error()
@@ -418,6 +421,12 @@ func evalC15(cs *c15Case) (sig, msg string, info c15Info) {
 		info.Skip = "start:" + r.StartErr
 		return
 	case r.TimedOut:
+		for _, e := range cs.Entries {
+			if e.Kind == "fifo" {
+				// nobody writes to the pipe: whoever opens it for reading waits for ever
+				return "non-regular-entry-opened", fmt.Sprintf("the tree holds the named pipe %s and gopatch did not come back within %v: it opened something that is not a regular file\n  args: %q", e.Path, run.CLITimeout, cs.Args), info
+			}
+		}
 		info.Foreign = "C08:cli-hang"
 		return
 	case r.Crashed():
@@ -894,6 +903,14 @@ func c15Gen(rt *rapid.T) *c15Case {
 			}
 		}
 		cs.Entries = append(cs.Entries, c15Entry{Path: p, Kind: "symlink", Target: target})
+	}
+
+	// A named pipe called like a Go file (never among the arguments: only
+	// ever met while walking a directory).
+	if rapid.IntRange(0, 5).Draw(rt, "fifo") == 0 {
+		par := dirs[rapid.IntRange(0, len(dirs)-1).Draw(rt, "fifoParent")]
+		p := fresh(par, rapid.SampledFrom([]string{"events.go", "pipe.go", "z_last.go", "a_first.go"}).Draw(rt, "fifoName"))
+		cs.Entries = append(cs.Entries, c15Entry{Path: p, Kind: "fifo"})
 	}
 
 	// Working directory.
